@@ -1661,6 +1661,7 @@ pub fn run_recrash(opts: &Opts) -> i32 {
     let shards = opts.u64("shards", 16);
     let per = opts.u64("n", if opts.thorough() { 10 } else { 1 });
     let budget = opts.u64("points", if opts.thorough() { 40 } else { 10 }) as usize;
+    let directed_every = opts.u64("directed_every", 4).max(1);
     let keep = format!("{dir}/images");
     std::fs::create_dir_all(&keep).unwrap();
     let mut handles = Vec::new();
@@ -1671,22 +1672,47 @@ pub fn run_recrash(opts: &Opts) -> i32 {
             let mut out = Out::new(&dir, &format!("s{sh}"));
             let mut rng = Rng::new(seed.wrapping_mul(40_503).wrapping_add(sh));
             let mut repaired = 0u64;
-            for w in 0..per {
+            // every fourth shard starts with a directed workload (recipe f1, small): keys whose durable,
+            // never-expiring generation is overwritten by one that is expired on arrival; the image cut
+            // before the old generations are retired makes a TTL-aware recovery retire BOTH kinds --
+            // superseded generations and expired winners -- and the crash points inside that recovery
+            // fall between its retirement transactions
+            let directed = if sh % directed_every == 0 { 1 } else { 0 };
+            for w in 0..per + directed {
+                let is_directed = w >= per;
                 let base = format!("{keep}/r{sh}_{w}.feox");
-                let ttl = rng.below(2);
-                let g = run_child(
-                    &[
-                        "tracegen".into(),
-                        format!("path={base}"),
-                        format!("seed={}", rng.next() % 1_000_000_007),
-                        format!("blocks={}", rng.pick(&[40u64, 64])),
-                        format!("ops={}", rng.range(20, 60)),
-                        format!("sync={}", rng.below(2)),
-                        format!("ttl={ttl}"),
-                        "close=0".into(),
-                    ],
-                    270,
-                );
+                let ttl = if is_directed { 1 } else { rng.below(2) };
+                let g = if is_directed {
+                    run_child(
+                        &[
+                            "tracegen".into(),
+                            format!("path={base}"),
+                            format!("seed={}", rng.next() % 1_000_000_007),
+                            "blocks=160".into(),
+                            format!("sync={}", rng.below(2)),
+                            "ttl=1".into(),
+                            "recipe=f1".into(),
+                            format!("fillers={}", rng.range(6, 24)),
+                            format!("xkeys={}", rng.range(3, 12)),
+                            "close=0".into(),
+                        ],
+                        270,
+                    )
+                } else {
+                    run_child(
+                        &[
+                            "tracegen".into(),
+                            format!("path={base}"),
+                            format!("seed={}", rng.next() % 1_000_000_007),
+                            format!("blocks={}", rng.pick(&[40u64, 64])),
+                            format!("ops={}", rng.range(20, 60)),
+                            format!("sync={}", rng.below(2)),
+                            format!("ttl={ttl}"),
+                            "close=0".into(),
+                        ],
+                        270,
+                    )
+                };
                 if g.as_deref().map_or(true, |s| !s.starts_with("tracegen-done")) {
                     out.emit3(&format!("note tracegen-failed {:?}", g), "note", "FAIL workload-child-failed-or-hung");
                     continue;
@@ -1696,11 +1722,30 @@ pub fn run_recrash(opts: &Opts) -> i32 {
                 }
                 let Some(t) = load_trace(&base) else { continue };
                 // first-level crash images whose recovery has something to repair are the interesting ones
-                let mut level1 = plans(&t, &mut rng, budget);
+                let mut level1 = plans(&t, &mut rng, if is_directed { budget * 6 } else { budget });
                 // prefer images cut while a journal bracket is open: shuffle deterministically
                 for i in 0..level1.len() {
                     let j = rng.below(level1.len() as u64) as usize;
                     level1.swap(i, j);
+                }
+                if is_directed {
+                    // only the instants of the rewrite phase, before its first retirement marker:
+                    // the new generations are (partly) durable, the old ones all still records
+                    let phase: u64 = std::fs::read_to_string(format!("{base}.trace"))
+                        .ok()
+                        .and_then(|x| x.lines().find(|l| l.contains(" PHASE rewrite")).and_then(|l| l.split(' ').next().and_then(|v| v.parse().ok())))
+                        .unwrap_or(0);
+                    let first_marker = t
+                        .evs
+                        .iter()
+                        .find_map(|e| match e {
+                            Ev::W { seq, at, len, applied: true, .. } if *seq > phase && *len >= 8 && &t.data[*at..*at + 8] == b"\0DELETED" => Some(*seq),
+                            _ => None,
+                        })
+                        .unwrap_or(u64::MAX);
+                    level1.retain(|p| p.cut > phase && p.cut <= first_marker);
+                    // latest first: the most new generations durable
+                    level1.sort_by(|a, b| b.cut.cmp(&a.cut));
                 }
                 let mut done = 0;
                 for (pi, plan) in level1.into_iter().enumerate() {
@@ -1739,7 +1784,7 @@ pub fn run_recrash(opts: &Opts) -> i32 {
                     let nev = rt.evs.iter().filter(|e| matches!(e, Ev::W { applied: true, .. } | Ev::F { .. })).count();
                     out.emit3(&format!("monitor {work} {p1}"), &format!("accepted events={nev}"), "ok");
                     // crash points inside recovery 1
-                    for (qi, q) in plans(&rt, &mut rng, 8).into_iter().enumerate() {
+                    for (qi, q) in plans(&rt, &mut rng, if is_directed { 24 } else { 8 }).into_iter().enumerate() {
                         let img2 = build_image(&rt, q.durable_upto, &q.extra);
                         let p2 = format!("{keep}/r{sh}_{w}_{pi}_{qi}.img");
                         std::fs::write(&p2, &img2).unwrap();
